@@ -1056,6 +1056,17 @@ wseed('C06f','C06.R5'); wseed('C07f','C07.R1'); wseed('C08f','C08.R6'); wseed('C
 
 wseed('C11f','C11.R6'); wseed('C12f','C12.R4'); wseed('C13f','C13.R2'); wseed('C14f','C14.R2'); wseed('C15f','C15.R4')
 wseed('C16f','C16.R3'); wseed('C17f','C17.R1'); wseed('C18f','C18.R3'); wseed('C19f','C19.R6'); wseed('C20f','C20.R1')
+
+# round 6 (composite refactors) and mutants in their shapes
+for b in ['B31','B32','B33','B34','B35','B36']:
+    for i in range(1,7):
+        wbenign(b,'p%d.diff'%i)
+w('C05', 'cursor form of the last-finalized walk: the first NON-final output is reported', 'C05.R6', *bp('B31',4),
+  (HOUT, '\t\tif isFinalizedAt(blockTime, bridgeConfig.FinalizationPeriod, kv.Value) {\n\t\t\treturn kv.Key.K2(), kv.Value, nil', '\t\tif !isFinalizedAt(blockTime, bridgeConfig.FinalizationPeriod, kv.Value) {\n\t\t\treturn kv.Key.K2(), kv.Value, nil'))
+w('C15', 'package-level rule table: the non-commit extension rule tests the signature field instead', 'C15.R3', *bp('B34',2),
+  ('x/opchild/l2connect/verify.go', '\t\t\treturn !isCommitVote(vote) && len(vote.VoteExtension) != 0', '\t\t\treturn !isCommitVote(vote) && len(vote.ExtensionSignature) != 0'))
+w('C06', 'cmp.Compare switch form: operands of the sequence comparison swapped', 'C06.R1', *bp('B32',1),
+  (DEP, 'cmp.Compare(l1Sequence, finalizedL1Sequence)', 'cmp.Compare(finalizedL1Sequence, l1Sequence)'))
 #@@MORE@@
 for p,l in W.items():
     json.dump(l, open(os.path.join(HERE,p+'.json'),'w'), indent=1)
